@@ -5,6 +5,11 @@
 package p2
 
 import (
+	"sync"
+
+	"github.com/CrowdStrike/csproto"
+	"github.com/CrowdStrike/csproto/lazyproto"
+
 	"google.golang.org/protobuf/encoding/protowire"
 	"google.golang.org/protobuf/proto"
 )
@@ -138,4 +143,70 @@ func pbC07(m pbMsg, want []byte) {
 	verifAssert(m.Size() == len(want), "Size accounts for the unknown fields")
 	verifAssertCanonical(m, out, want, "unknown fields are re-emitted byte for byte by the next Marshal")
 	verifReach("end")
+}
+
+// C09, concurrent clause: Size/Marshal/MarshalTo on a message nobody mutates write nothing into it except the
+// atomically stored size cache (thread-modular ownership obligation: everything reachable from the message is
+// shared), and repeated calls return the same bytes. Natively: 8 goroutines under the race detector.
+func pbC09Own(m pbMsg) {
+	if verifNative() {
+		// the expected bytes come from a clone, so that the goroutines below start on a message whose size cache
+		// has never been written (a message fresh from construction / Unmarshal / Clone)
+		first, err := proto.Clone(m).(pbMsg).Marshal()
+		verifAssert(err == nil, "native: Marshal succeeds")
+		var wg sync.WaitGroup
+		bad := make(chan string, 16)
+		for g := 0; g < 8; g++ {
+			wg.Add(1)
+			go func() {
+				defer wg.Done()
+				for i := 0; i < 200; i++ {
+					n := m.Size()
+					b, err := m.Marshal()
+					buf := make([]byte, n)
+					err2 := m.MarshalTo(buf)
+					if err != nil || err2 != nil || string(b) != string(first) || string(buf) != string(first) {
+						select {
+						case bad <- "concurrent Marshal returned different bytes":
+						default:
+						}
+						return
+					}
+				}
+			}()
+		}
+		wg.Wait()
+		close(bad)
+		for b := range bad {
+			verifAssert(false, "native: "+b)
+		}
+		return
+	}
+	verifShareRoot(m)
+	sz := m.Size()
+	out, err := m.Marshal()
+	verifAssert2(err == nil, len(out) == sz, "Marshal")
+	buf := make([]byte, sz)
+	verifAssert(m.MarshalTo(buf) == nil, "MarshalTo")
+	out2, err := m.Marshal()
+	verifAssert(err == nil, "second Marshal")
+	verifAssertBytesEq(out, out2, "every call on an unmutated message returns the same bytes")
+	verifAssertBytesEq(out, buf, "MarshalTo writes the same bytes")
+	verifReach("end")
+}
+
+// pbC10Prelude: the process has used other decoders before the safe-mode Unmarshal under test - a lazy decode
+// (which runs csproto.Decoder in fast mode internally), a fast-mode csproto.Decoder, and results handed back to
+// their pools. Whatever state those leave behind (pooled objects, package-level caches) must not turn a later
+// safe-mode decode into an aliasing one.
+func pbC10Prelude() {
+	warm := []byte{0x0a, 0x01, 'x', 0x10, 0x07}
+	res, err := lazyproto.Decode(warm, lazyproto.NewDef(1, 2))
+	if err == nil {
+		_ = res.Close()
+	}
+	d := csproto.NewDecoder(warm)
+	d.SetMode(csproto.DecoderModeFast)
+	_, _, _ = d.DecodeTag()
+	_, _ = d.DecodeString()
 }
